@@ -119,6 +119,21 @@ def updateWithNewValues (shortcuts : List (Int × Sc)) (vals : List Leaf) : List
     let st := expandShortcuts (bindShortcuts shortcuts vals) { out := [], cur := false, lastEnd := 0, i := 0 }
     popTrailingJump st.out.reverse
 
+/-- `ListNode._keep_own_nodes`, the positional part: the original node at a position stands in for a foreign node
+    that holds exactly its value and type -/
+def keepZip : List Leaf → List Leaf → List Leaf
+  | _, [] => []
+  | [], vs => vs
+  | o :: own, v :: vs => (if o.ty == v.ty && o.val == v.val then o else v) :: keepZip own vs
+
+/-- `ListNode._keep_own_nodes`; `own` = `list(self)` before the update -/
+def keepOwnNodes (own vals : List Leaf) : List Leaf :=
+  if vals.any (fun v => own.any (fun o => o.id == v.id)) then vals else keepZip own vals
+
+/-- `ListNode.update_with_new_values` as a whole: own nodes stand in for copies, then the list is rebuilt -/
+def updateWithNewValuesFull (shortcuts : List (Int × Sc)) (own vals : List Leaf) : List Item :=
+  updateWithNewValues shortcuts (keepOwnNodes own vals)
+
 /-! ## `ListNode.format` -/
 
 def Item.numeric : Item → Bool
